@@ -41,13 +41,15 @@ def alphabet(tables):
 
 
 def render(letter, style: str, dialect: str = "ansi") -> str:
-    item = "*" if style == "star" else "1"
+    item = "1" if style == "lit" else "*"
     if letter[0] == "rw":
         _, reads, w = letter
         if reads and w:
             return f"INSERT INTO {w} SELECT {item} FROM {', '.join(reads)}"
         if reads:
             return f"SELECT {item} FROM {', '.join(reads)}"
+        if style == "ddl":
+            return f"CREATE TABLE {w} (c1 int)"  # a write that wires a column to the table but no table edge
         return f"INSERT INTO {w} VALUES (1)"
     if letter[0] == "drop":
         return f"DROP TABLE {letter[1]}"
@@ -60,7 +62,7 @@ def render(letter, style: str, dialect: str = "ansi") -> str:
 # reference model (from the property text)
 # ----------------------------------------------------------------------------------------------
 class Ref:
-    __slots__ = ("N", "E", "S", "G", "R", "taint")
+    __slots__ = ("N", "E", "S", "G", "R", "W", "taint", "style")
 
     def __init__(self):
         self.N = set()  # tables present
@@ -68,10 +70,12 @@ class Ref:
         self.S = set()  # read by a statement that writes nothing
         self.G = set()  # written by a statement that reads nothing
         self.R = set()  # ever read from (keeps DROP away)
+        self.W = set()  # something (a column) is wired to it although it has no table edge
         self.taint = set()  # tables whose roles the text leaves open
+        self.style = None
 
     def key(self):
-        return json.dumps([sorted(self.N), sorted(self.E), sorted(self.S), sorted(self.G), sorted(self.R), sorted(self.taint)])
+        return json.dumps([sorted(self.N), sorted(self.E), sorted(self.S), sorted(self.G), sorted(self.R), sorted(self.W), sorted(self.taint)])
 
     def nbrs(self, t):
         return {a for a, b in self.E if b == t} | {b for a, b in self.E if a == t}
@@ -87,12 +91,14 @@ class Ref:
                 self.S |= set(reads)
             elif w and not reads:
                 self.G.add(w)
+                if self.style == "ddl":
+                    self.W.add(w)
             else:
                 for r in reads:
                     self.E.add((r, w))
         elif ev[0] == "drop":
             t = ev[1]
-            wired = t in self.R or any(t in e for e in self.E)
+            wired = t in self.R or t in self.W or any(t in e for e in self.E)
             if not wired:
                 # nothing was ever read from it or wired to it: DROP removes it; other tables untouched
                 self.N.discard(t)
@@ -116,13 +122,13 @@ class Ref:
             # nominal continuation: y takes x's place (what the text says for the clean case)
             self.E = {(y if a == x else a, y if b == x else b) for a, b in self.E}
             self.E.discard((y, y))
-            for tag in (self.S, self.G, self.R):
+            for tag in (self.S, self.G, self.R, self.W):
                 if x in tag:
                     tag.discard(x)
                     tag.add(y)
             self.N.discard(x)
             self.N.add(y)
-            if not (any(y in e for e in self.E) or y in self.R or y in self.S or y in self.G):
+            if not (any(y in e for e in self.E) or y in self.R or y in self.S or y in self.G or y in self.W):
                 self.N.discard(y)
             if x in self.taint:
                 self.taint.discard(x)
@@ -137,8 +143,9 @@ class Ref:
         return src, tgt, mid
 
 
-def ref_of(hist):
+def ref_of(hist, style=None):
     r = Ref()
+    r.style = style
     for ev in hist:
         r.step(ev)
     return r
@@ -229,7 +236,7 @@ def _expand(task):
     out = []
     for ev in alphabet(tables):
         h2 = hist + [ev]
-        ref = ref_of(h2)
+        ref = ref_of(h2, style)
         try:
             s, t, m, e, h = impl_obs(tables, style, h2)
         except Exception as ex:  # noqa
@@ -307,7 +314,7 @@ def _pipeline(task):
 
     hist = [tuple(ev) for ev in hist]
     script = ";\n".join(render(ev, style, dialect) for ev in hist)
-    ref = ref_of(hist)
+    ref = ref_of(hist, style)
     try:
         r = LineageRunner(script, dialect=dialect)
         s = {bare(t) for t in r.source_tables}
@@ -366,14 +373,16 @@ def run(tier: str, opts: dict) -> int:
         runs = [
             bfs(rep, T3, "star", 3, t0 + budget, "3 tables, depth 3, SELECT * templates"),
             bfs(rep, T2, "lit", 30, t0 + budget, "2 tables, to fixpoint, literal templates"),
+            bfs(rep, T2, "ddl", 4, t0 + budget, "2 tables, depth 4, CREATE TABLE (columns) as the read-nothing write"),
         ]
-        pipe = pipeline(rep, [(T3, "star", "ansi", 2), (T2, "lit", "ansi", 3), (T2, "star", "mysql", 2)], t0 + budget)
+        pipe = pipeline(rep, [(T3, "star", "ansi", 2), (T2, "lit", "ansi", 3), (T2, "star", "mysql", 2), (T2, "ddl", "ansi", 3)], t0 + budget)
     else:
         budget = 840
         runs = [
             bfs(rep, T2, "lit", 40, t0 + 120, "2 tables, to fixpoint, literal templates"),
             bfs(rep, T2, "star", 40, t0 + 240, "2 tables, to fixpoint, SELECT * templates"),
             bfs(rep, T3, "lit", 4, t0 + 400, "3 tables, depth 4, literal templates"),
+            bfs(rep, T2, "ddl", 40, t0 + 460, "2 tables, to fixpoint, CREATE TABLE (columns) as the read-nothing write"),
             bfs(rep, T3, "star", 12, t0 + 600, "3 tables, breadth-first until the time cap, SELECT * templates"),
         ]
         pipe = pipeline(
@@ -410,7 +419,7 @@ def replay(body: dict, opts: dict) -> int:
     c = body["case"]
     tables = tuple(c["tables"])
     hist = [tuple(tuple(x) if isinstance(x, list) else x for x in ev) for ev in c["history"]]
-    ref = ref_of(hist)
+    ref = ref_of(hist, c.get("style"))
     if c["part"] == "a":
         s, t, m, e, _ = impl_obs(tables, c["style"], hist)
         bad = compare(ref, (s, t, m, e), tables, hist[-1])
